@@ -186,7 +186,7 @@ func runCheck(o *Options) int {
 	}
 	timeout := o.timeout
 	if timeout == 0 {
-		timeout = 10
+		timeout = 20
 		if o.tier == "thorough" {
 			timeout = 60
 		}
